@@ -794,6 +794,33 @@ impl<Writer: Write> Mp4Writer<Writer> {
                 "MP4 MDAT box size exceeds u32::MAX",
             ));
         }
+        // Lay out the interleaved samples first (64-bit), so that a recording whose
+        // chunk offsets do not fit the 32-bit stco is refused before the mdat is written
+        // (the fast-start path performs the same check).
+        let schedule = self.compute_interleave_schedule();
+        let mut video_chunk_offsets = Vec::with_capacity(self.video_samples.len());
+        let mut audio_chunk_offsets = Vec::with_capacity(self.audio_samples.len());
+        let mut cursor = u64::from(ftyp_len) + 8; // After ftyp + mdat header
+
+        for (_, kind, idx) in &schedule {
+            if cursor > u64::from(u32::MAX) {
+                return Err(io::Error::new(
+                    io::ErrorKind::InvalidData,
+                    "MP4 chunk offset exceeds u32::MAX",
+                ));
+            }
+            match kind {
+                TrackKind::Video => {
+                    video_chunk_offsets.push(cursor as u32);
+                    cursor += self.video_samples[*idx].data.len() as u64;
+                }
+                TrackKind::Audio => {
+                    audio_chunk_offsets.push(cursor as u32);
+                    cursor += self.audio_samples[*idx].data.len() as u64;
+                }
+            }
+        }
+
         Self::write_counted(
             &mut self.writer,
             &mut self.bytes_written,
@@ -801,29 +828,13 @@ impl<Writer: Write> Mp4Writer<Writer> {
         )?;
         Self::write_counted(&mut self.writer, &mut self.bytes_written, b"mdat")?;
 
-        // Write interleaved samples and collect chunk offsets
-        let schedule = self.compute_interleave_schedule();
-        let mut video_chunk_offsets = Vec::with_capacity(self.video_samples.len());
-        let mut audio_chunk_offsets = Vec::with_capacity(self.audio_samples.len());
-        let mut cursor = ftyp_len + 8; // After ftyp + mdat header
-
+        // Write the samples in schedule order
         for (_, kind, idx) in schedule {
-            match kind {
-                TrackKind::Video => {
-                    video_chunk_offsets.push(cursor);
-                    let sample = &self.video_samples[idx];
-                    let sample_len = sample.data.len() as u32;
-                    Self::write_counted(&mut self.writer, &mut self.bytes_written, &sample.data)?;
-                    cursor += sample_len;
-                }
-                TrackKind::Audio => {
-                    audio_chunk_offsets.push(cursor);
-                    let sample = &self.audio_samples[idx];
-                    let sample_len = sample.data.len() as u32;
-                    Self::write_counted(&mut self.writer, &mut self.bytes_written, &sample.data)?;
-                    cursor += sample_len;
-                }
-            }
+            let sample = match kind {
+                TrackKind::Video => &self.video_samples[idx],
+                TrackKind::Audio => &self.audio_samples[idx],
+            };
+            Self::write_counted(&mut self.writer, &mut self.bytes_written, &sample.data)?;
         }
 
         let video_tables = SampleTables::from_samples(
